@@ -531,17 +531,17 @@ def run(ctx: Ctx) -> Result:
         multi_cases(res, lines, impl_out, 6, only)
     else:
         # process pools first: no harness threads exist yet when they fork
-        for procs in ([1, 2, 3, 4] if T else [1, 2]):
+        for procs in ([1, 2, 3, 4, 8] if T else [1, 2]):
             for k in range(4 if T else 2):
                 pool_free_running(res, rng, lambda p: BoboActionHandlerMultiprocessing(processes=p), 'multiprocessing',
                                   procs, rng.randint(1, 10 if T else 6), 900 + 10 * procs + k, same_object=False)
         multi_cases(res, lines, impl_out, 6)
-        multi_nested_cases(res, rng, 5000 if T else 600)
-        blocking_cases(res, rng, lines, impl_out, 2000 if T else 300, 100)
-        forwarder_cases(res, rng, lines, impl_out, 1500 if T else 200, 500)
-        threads_gated(res, rng, lines, impl_out, 600 if T else 100, 2000)
+        multi_nested_cases(res, rng, 20000 if T else 600)
+        blocking_cases(res, rng, lines, impl_out, 6000 if T else 300, 100)
+        forwarder_cases(res, rng, lines, impl_out, 5000 if T else 200, 500)
+        threads_gated(res, rng, lines, impl_out, 2500 if T else 100, 2000)
         for w in range(1, 9):
-            for k in range(12 if T else 4):
+            for k in range(30 if T else 4):
                 pool_free_running(res, rng, lambda p: BoboActionHandlerMultithreading(threads=p), 'multithreading',
                                   w, rng.randint(1, 24), 3000 + 10 * w + k, same_object=True)
     if ctx.model_available():
@@ -584,12 +584,12 @@ SPEC = PropSpec(
     translators=['actions'],
     run=run,
     search=search,
-    rule='multi-action: every outcome vector of 1..6 sub-actions x stop_on_fail on/off (exhaustive, 252 cases) + 600/5000 seeded '
-         'nested / event-dependent multi-actions; blocking handler: 300/2000 random handle/get scripts of 1..10 actions (queue bound 0,1,3); '
-         'forwarder over the blocking handler: 200/1500 scripts of 1..10 complex events over 1..4 phenomena (with / without action, unknown); '
-         'multithreading handler: 100/600 gated batches of 1..12 actions on 1..8 threads with a scripted completion order, plus 32/96 '
+    rule='multi-action: every outcome vector of 1..6 sub-actions x stop_on_fail on/off (exhaustive, 252 cases) + 600/20000 seeded '
+         'nested / event-dependent multi-actions; blocking handler: 300/6000 random handle/get scripts of 1..10 actions (queue bound 0,1,3); '
+         'forwarder over the blocking handler: 200/5000 scripts of 1..10 complex events over 1..4 phenomena (with / without action, unknown); '
+         'multithreading handler: 100/2500 gated batches of 1..12 actions on 1..8 threads with a scripted completion order, plus 32/240 '
          'free-running batches of 1..24 sleeping actions on 1..8 threads; multiprocessing handler: batches of 1..6 (1..10) pickled actions '
-         'on 1..2 (1..4) processes. One action object serves several events with different outcomes; data values are unique per '
+         'on 1..2 (1..4, 8) processes. One action object serves several events with different outcomes; data values are unique per '
          'submission; responses are matched back by complex-event id. A multi case is non-trivial when some sub-action fails; all others are.',
     trusted_base=['the harness gates (threading.Event) decide the completion order of the real thread pool; process-pool scheduling and '
                   'pickling are exercised with the oracle only'],
